@@ -122,6 +122,10 @@ def check(case, ctx):
         ctx.count('shared_subobject')
     if proj.share_index_item(value, m):
         ctx.count('index_item_shared_with_attribute')
+    if case.get('intern', True):
+        value, n_interned = proj.intern_leaves(value, m)
+        if n_interned:
+            ctx.count('date_or_path_leaf_object_used_twice')
     try:
         want = proj.Projector(m).project(value)
     except proj.Ambiguous:
